@@ -4,7 +4,15 @@ stdin : {"cases": [case...], "delay_cases": [[tries, base, max, draw]...]}
   case = {"entry": "debug"|"plain"|"delayed"|"sync", "script": [evspec...], "draws": [int...]|"lo"|"hi", "patched": bool}
   evspec = {"t": "probe", "cls": [lim, rate, trans]}           (only with patched classifiers)
          | {"t": "base", "name": "KeyboardInterrupt"|"CancelledError"|"SystemExit"|"GeneratorExit"}
-         | {"t": "exc", "type": <name>, ...fields, "cause": evspec?}   (real instances, real classifiers)
+         | {"t": "exc", "type": <name>, ...fields, "cause": evspec?, "context": evspec?, "from_none": bool?}
+           (real instances, real classifiers).  Chains are made by the interpreter, not by assigning attributes:
+             cause only            raise E from CAUSE
+             context               try: raise CONTEXT / except: raise E            (implicit: E raised while CONTEXT was being handled)
+             context + from_none   try: raise CONTEXT / except: raise E from None  (__context__ stays, __suppress_context__ set)
+             context + cause       try: raise CONTEXT / except: raise E from CAUSE
+             "reraise_from": spec  try: raise E / except: try: raise B / except: raise E from B   (E re-raised from an error that
+                                   occurred while handling E; the interpreter cuts the context cycle)
+  "shapes": [evspec...]  -> "shape_cls": [[limited, rate, transient] by the REAL classifiers, plus the links the interpreter really set]
 stdout: {"results": [{"calls", "outcome", "sleeps", "rr_args", "cls"}...], "delays": [...], "constants": {...}, "touched": [...]}
 
 Nothing sleeps: asyncio.sleep / time.sleep / random.randrange are replaced *inside the utils module namespace only*.
@@ -126,9 +134,60 @@ def build(spec):
         raise SystemExit(f'c21_retry: unknown exception type in spec: {ty}')
     if not isinstance(e, BaseException):
         raise SystemExit(f'c21_retry: {ty} did not build an exception instance (stub class?)')
-    if spec.get('cause') is not None:
-        e.__cause__ = build(spec['cause'])
+    if 'atom' in spec:
+        e._atom = spec['atom']
+    return _chain(e, spec)
+
+
+def _chain(e, spec):
+    cause = build(spec['cause']) if spec.get('cause') is not None else None
+    handling = build(spec['context']) if spec.get('context') is not None else None
+    from_none = bool(spec.get('from_none'))
+    if spec.get('reraise_from') is not None:
+        b = build(spec['reraise_from'])
+        try:
+            try:
+                raise e
+            except BaseException as e1:
+                try:
+                    raise b
+                except BaseException as b1:
+                    raise e1 from b1
+        except BaseException as x:
+            if x is not e:
+                raise
+            return x
+    if cause is None and handling is None and not from_none:
+        return e
+
+    def do_raise():
+        if cause is not None:
+            raise e from cause
+        if from_none:
+            raise e from None
+        raise e
+
+    try:
+        if handling is not None:
+            try:
+                raise handling
+            except BaseException:
+                do_raise()
+        else:
+            do_raise()
+    except BaseException as x:
+        if x is not e:
+            raise
+    e.__traceback__ = None
     return e
+
+
+def links(e, depth=0):
+    """what the interpreter really set (reported back so that the model is evaluated on the object that exists)"""
+    if e is None or depth > 12:
+        return None
+    return {'type': type(e).__name__, 'atom': getattr(e, '_atom', None), 'cause': links(e.__cause__, depth + 1), 'context': links(e.__context__, depth + 1),
+            'suppress': bool(e.__suppress_context__)}
 
 
 REAL = (u.is_limited_retries_error, u.is_rate_limit_error, u.is_transient_error)
@@ -239,9 +298,16 @@ def main():
     asyncio.set_event_loop(loop)
     out = [run_case(loop, c) for c in req.get('cases', [])]
     delays = [run_delay(*d) for d in req.get('delay_cases', [])]
+    shape_cls = []
+    for sp in req.get('shapes', []):
+        e = build(sp)
+        try:
+            shape_cls.append({'cls': [bool(c(e)) for c in REAL], 'links': links(e)})
+        except RecursionError:
+            shape_cls.append({'cls': None, 'links': None, 'error': 'RecursionError'})
     loop.close()
     consts = {k: getattr(u, k, None) for k in ('LOG_2_MAX_MULTIPLIER', 'DEFAULT_MAX_DELAY_MS', 'DEFAULT_BASE_DELAY_MS')}
-    json.dump({'results': out, 'delays': delays, 'constants': consts,
+    json.dump({'results': out, 'delays': delays, 'constants': consts, 'shape_cls': shape_cls,
                'touched': sorted(t for t in hailload.TOUCHED if t.split('.')[0] in ('aiodocker', 'urllib3', 'requests', 'botocore'))},
               sys.stdout)
 
